@@ -81,7 +81,7 @@ class Pipeline(BaseTransformer):
             data: The data to be fitted.
         """
         for transformer in self.transformers:
-            transformer.fit_transform(data, *args)
+            data = transformer.fit_transform(data, *args)
 
     def transform(
         self,
